@@ -7,6 +7,7 @@ import SymbolVerif.Model.Sdk.Ed25519
 import SymbolVerif.Proofs.BytesLemmas
 import Mathlib.GroupTheory.OrderOfElement
 import Mathlib.Tactic.Abel
+import Mathlib.Data.ZMod.Basic
 namespace SymbolVerif.Curve
 open SymbolVerif SymbolVerif.Bytes SymbolVerif.Sdk.Ed25519
 
@@ -93,5 +94,23 @@ theorem leNat_inj : ∀ {a b : Bytes}, a.length = b.length → leNat a = leNat b
     have h1 : x.toNat = y.toNat := by omega
     have h2 : leNat xs = leNat ys := by omega
     rw [UInt8.toNat_inj.1 h1, leNat_inj (by simpa using hl) h2]
+
+/-! a toy instance showing the hypotheses are jointly satisfiable (used by the non-vacuity examples of C07 and C14) -/
+
+/-- `Lawful`, exact order, injective encoding and the decode hypothesis are jointly satisfiable: the integers modulo 11 with
+    base point 1, `L = 11`, points encoded as one byte followed by 31 zeros. -/
+def toyCurve : Curve (ZMod 11) where
+  add := (· + ·)
+  neg := (- ·)
+  zero := 0
+  smul := fun n P => (n : ZMod 11) * P
+  B := 1
+  L := 11
+  encode := fun P => UInt8.ofNat P.val :: zeros 31
+  decode := fun bs => match bs with | [] => none | b :: _ => some (b.toNat : ZMod 11)
+
+theorem toyCurve_lawful : Lawful toyCurve :=
+  { add_eq := fun _ _ => rfl, neg_eq := fun _ => rfl, zero_eq := rfl, smul_eq := fun n P => (nsmul_eq_mul n P).symm,
+    order := by decide, L_pos := by decide, L_le := by decide, encode_length := fun _ => by simp [toyCurve, zeros] }
 
 end SymbolVerif.Curve
